@@ -40,7 +40,7 @@ from . import common
 from .common import Check, run_tlc_sharded, require_model_ok
 from .realeval import ev
 
-INVS = ["InvBaseTieFree", "InvTieFreeKept", "InvTables", "InvPairVectors", "InvPairHist", "InvDensityModes",
+INVS = ["InvBaseTieFree", "InvTieFreeKept", "InvTables", "InvCell", "InvPairVectors", "InvPairHist", "InvDensityModes",
         "InvNeighbors", "InvBonds", "InvPsi", "InvQl", "InvTetra", "InvGyration", "InvField", "InvDisplacements",
         "InvGroupLaw", "InvRelabelWrap"]
 SAMPLES = "/repo/tests/sample_test_data"
@@ -345,18 +345,21 @@ def ob_voro(R, tmp):
 
 
 def ob_boo3(R, tmp):
+    """degrees and what is evaluated per degree come from the specification (Symmetry!BooDegrees):
+    kind 0 = q_l, Q_l; 1 = + w_l, w-hat_l; 2 = + coarse-grained W-hat_l"""
     from PyMatterSim.static.boo import boo_3d
     nf = os.path.join(tmp, "nb3.dat")
     write_nb(nf, R.nb)
     out = {}
-    for l in ((6,) if R.n > 40 else (4, 6)):       # big inputs: l = 6 only (speed)
+    for l, kind in R.boo3:
         with np.errstate(all="ignore"):
             b = boo_3d(R.snaps, l, nf, ppp=R.ppp, Nmax=30)
             out[f"q{l}"] = b.ql_Ql(coarse_graining=False)
             out[f"Q{l}"] = b.ql_Ql(coarse_graining=True)
-            w, wcap = b.w_W_cap(coarse_graining=False)
-            W, Wcap = b.w_W_cap(coarse_graining=True)
-        out[f"w{l}"], out[f"what{l}"], out[f"What{l}"] = w, wcap, Wcap
+            if kind >= 1:
+                out[f"w{l}"], out[f"what{l}"] = b.w_W_cap(coarse_graining=False)
+            if kind >= 2:
+                out[f"What{l}"] = b.w_W_cap(coarse_graining=True)[1]
     return out
 
 
@@ -446,17 +449,23 @@ OBS = {"gr": ob_gr, "sq": ob_sq, "nn": ob_nn, "cut": ob_cut, "cuttype": ob_cutty
        "logrelax": ob_logrelax, "gyr": ob_gyr, "pr": ob_pr}
 
 
-def compute(name, cfg, R=None):
-    """-> ("ok", result) | ("raises", text)"""
-    tmp = tempfile.mkdtemp(prefix="verif_c07_")
+def compute(name, cfg, R=None, tmp=None, boo3=None):
+    """-> ("ok", result) | ("raises", text).  With `tmp` the routine writes into that directory, under the same
+    file names as every other evaluation of the process (Symmetry!Schedule: a script that loops over configurations)"""
+    own = tmp is None
+    if own:
+        tmp = tempfile.mkdtemp(prefix="verif_c07_")
     try:
         R = R or render(cfg)
+        if boo3 is not None:
+            R.boo3 = [(int(l), int(k)) for l, k in boo3]
         try:
             return ("ok", OBS[name](R, tmp))
         except Exception as e:     # the routine delivers no result on a valid input
             return ("raises", f"{type(e).__name__}: {str(e)[:160]}")
     finally:
-        shutil.rmtree(tmp, ignore_errors=True)
+        if own:
+            shutil.rmtree(tmp, ignore_errors=True)
 
 
 # ============================================================================================
@@ -668,7 +677,7 @@ def cmp_boo3(r0, r1, act, ctx, out):
     for key in r0:
         if key.startswith("w") or key.startswith("W"):
             # w-hat = w / |q|^3 is 0/0 where q_l vanishes (perfectly symmetric environments)
-            l = key[-1]
+            l = key.lstrip("wWhat")
             base_q = r0[("Q" if key[0] == "W" else "q") + l]
             frag = [set(np.where(base_q[f] < 1e-6)[0]) | ctx["bondtie"][f] for f in range(base_q.shape[0])]
         else:
@@ -811,51 +820,87 @@ def small_ctx(case, cfg):
 
 def replay_group(job):
     """One base configuration with a list of (word, transformed configuration, action, observables).
+    Everything is evaluated in THIS process, into one output directory with fixed file names, in the order of the
+    specification's schedule (Symmetry!Schedule): "b" = base, "t" = transformed; the first base evaluation is shared by
+    the items of the job, a later "b" is a fresh evaluation AFTER the transformed configuration has been analysed.
     Returns a list of (verdict, clause, detail, key) tuples."""
     common.import_lib()
     base_cfg, items, label = job["cfg"], job["items"], job["label"]
     res = []
     cache = {}
     Rb = render(base_cfg)
+    tmp = tempfile.mkdtemp(prefix="verif_c07_")
 
-    def base_obs(name):
-        if name not in cache:
-            cache[name] = compute(name, base_cfg, Rb)
-        return cache[name]
+    def base_fresh(name, it):
+        return compute(name, base_cfg, Rb, tmp, boo3=it.get("boo3"))
 
-    for it in items:
-        cfg2, act, ctx, obs, ident = it["cfg2"], it["act"], it["ctx"], it["obs"], it["ident"]
-        R2 = render(cfg2)
-        for name in obs:
-            key = (label, name, word_kinds(it["word"]))
-            detail = {"input": ident, "observable": name, "word": it["word"]}
-            t_start = time.time()
-            s0, r0 = base_obs(name)
-            if s0 == "raises":
-                res.append(("violation", f"raises:{name}:base:{r0.split(':')[0]}", dict(detail, error=r0), key))
+    def base_obs(name, it):
+        if name != "boo3":
+            if name not in cache:
+                cache[name] = base_fresh(name, it)
+            return cache[name]
+        merged = {}
+        for deg in it["boo3"]:       # per degree, so that items with different degree lists share the work
+            k = ("boo3",) + tuple(deg)
+            if k not in cache:
+                cache[k] = compute(name, base_cfg, Rb, tmp, boo3=[deg])
+            if cache[k][0] == "raises":
+                return cache[k]
+            merged.update(cache[k][1])
+        return ("ok", merged)
+
+    def compare(name, r0, r1, it, detail, key, count=True):
+        out = Cmp()
+        try:
+            CMP[name](r0, r1, it["act"], it["ctx"], out)
+        except Exception as e:  # comparison itself failed: report as machinery problem
+            res.append(("machinery", f"{name}: {type(e).__name__}: {e}", detail, key))
+            return
+        if out.ties and count:
+            res.append(("tie", out.ties, None, key))
+        if out.bad:
+            clause, d2 = out.bad[0]
+            res.append(("violation", clause, dict(detail, **_jsonable(d2)), key))
+        elif out.checked:
+            res.append(("ok", None, {"input": detail["input"], "observable": name, "word": word_kinds(it["word"]),
+                                     "compared": out.checked, "order": detail["order"]}, key))
+
+    try:
+        for it in items:
+            cfg2, ctx, obs, ident = it["cfg2"], it["ctx"], it["obs"], it["ident"]
+            sched = it.get("sched") or ["b", "t"]
+            if sched[:2] != ["b", "t"] or any(x != "b" for x in sched[2:]):
+                res.append(("machinery", f"schedule {sched} not understood", None, None))
                 continue
-            s1, r1 = compute(name, cfg2, R2)
-            res.append(("time", time.time() - t_start, None, key))
-            if s1 == "raises":
-                res.append(("violation", f"raises:{name}:{r1.split(':')[0]}", dict(detail, error=r1), key))
-                continue
-            if label == "traj" and name in ("nn", "cut", "cuttype", "gr"):
-                rec = trace_record(name, base_cfg, cfg2, it["word"], r0, r1, ctx)
-                if rec is not None:
-                    res.append(("trace", rec, {"input": ident, "observable": name, "word": it["word"]}, key))
-            out = Cmp()
-            try:
-                CMP[name](r0, r1, act, ctx, out)
-            except Exception as e:  # comparison itself failed: report as machinery problem
-                res.append(("machinery", f"{name}: {type(e).__name__}: {e}", detail, key))
-                continue
-            if out.ties:
-                res.append(("tie", out.ties, None, key))
-            if out.bad:
-                clause, d2 = out.bad[0]
-                res.append(("violation", clause, dict(detail, **_jsonable(d2)), key))
-            elif out.checked:
-                res.append(("ok", None, {"input": ident, "observable": name, "word": word_kinds(it["word"]), "compared": out.checked}, key))
+            R2 = render(cfg2)
+            for name in obs:
+                key = (label, name, word_kinds(it["word"]))
+                detail = {"input": ident, "observable": name, "word": it["word"], "order": "base first"}
+                t_start = time.time()
+                s0, r0 = base_obs(name, it)
+                if s0 == "raises":
+                    res.append(("violation", f"raises:{name}:base:{r0.split(':')[0]}", dict(detail, error=r0), key))
+                    continue
+                s1, r1 = compute(name, cfg2, R2, tmp, boo3=it.get("boo3"))
+                if s1 == "raises":
+                    res.append(("time", time.time() - t_start, None, key))
+                    res.append(("violation", f"raises:{name}:{r1.split(':')[0]}", dict(detail, error=r1), key))
+                    continue
+                if label == "traj" and name in ("nn", "cut", "cuttype", "gr"):
+                    rec = trace_record(name, base_cfg, cfg2, it["word"], r0, r1, ctx)
+                    if rec is not None:
+                        res.append(("trace", rec, {"input": ident, "observable": name, "word": it["word"]}, key))
+                compare(name, r0, r1, it, detail, key)
+                for _ in sched[2:]:
+                    d2 = dict(detail, order="transformed first")
+                    s0b, r0b = base_fresh(name, it)
+                    if s0b == "raises":
+                        res.append(("violation", f"raises:{name}:base:{r0b.split(':')[0]}", dict(d2, error=r0b), key))
+                        continue
+                    compare(name, r0b, r1, it, d2, key + ("again",), count=False)
+                res.append(("time", time.time() - t_start, None, key))
+    finally:
+        shutil.rmtree(tmp, ignore_errors=True)
     return res
 
 
@@ -926,7 +971,9 @@ def collect(chk, results, covered, trace):
                 tb = chk.extra.setdefault("wall_s_by_observable", {})
                 tb[key[0] + ":" + key[1]] = round(tb.get(key[0] + ":" + key[1], 0.0) + clause, 2)
             elif verdict == "ok":
-                covered.add(key[1:])
+                covered.add(key[1:3])
+                if len(key) > 3:
+                    chk.extra["comparisons_transformed_first"] = chk.extra.get("comparisons_transformed_first", 0) + 1
                 chk.ok(key, sample=detail)
             elif verdict == "tie":
                 chk.skipped_tie += clause
@@ -961,7 +1008,8 @@ def small_jobs(cases, quick):
         obs = list(case["obs"])
         by_base.setdefault(case["base"], {"cfg": base, "items": [], "label": "small"})["items"].append(
             {"word": case["word"], "cfg2": want, "act": actd, "ctx": small_ctx(case, base), "obs": obs,
-             "ident": {"base": case["base"], "margin": case["margin"]}})
+             "boo3": case["boo3"], "sched": list(case["sched"]),
+             "ident": {"base": case["base"], "margin": case["margin"], "cell": case["cellrel"]}})
     jobs = []
     for bid in sorted(by_base):
         g = by_base[bid]
@@ -1118,7 +1166,7 @@ def traj_jobs(loaded, cases, tier, chk):
             # the applier must agree with what the specification printed for this word: re-indexed species tables,
             # species map, mapped wave vectors, the linear map and the scale
             same = all(np.array_equal(np.asarray(cfg2[k]), np.array(case["tab2"][k])) for k in ("R", "dia", "E", "ms"))
-            if not same or act["sigma"] != case["sigma"] or cfg2["vecs"].tolist() != case["vecs2"] or \
+            if not same or act["sigma"] != case["sigma"] or cfg2["vecs"].tolist() != case["vecs2"] or act["ax"] != case["ax"] or \
                     act["lin"].tolist() != case["lin"] or act["mm"] != case["mm"] or act["S1"] != case["S1"]:
                 raise common.MachineryError(f"applier disagrees with the specification on trajectory {tid} word {case['word']}")
             act = dict(act)
@@ -1128,7 +1176,9 @@ def traj_jobs(loaded, cases, tier, chk):
             ctx = {"d": cfg["d"], "bins": mm["bins"], "nbins_fragile": mm["nbins_fragile"], "nn": mm["nn"], "tetra": mm["tetra"],
                    "cut": mm["cut"], "cuttype": mm["cuttype"], "s2": mm["s2"], "bondtie": mm["half"]}
             items.append({"word": case["word"], "cfg2": cfg2, "act": act, "ctx": ctx, "obs": obs,
-                          "ident": {"trajectory": TRAJ[tid - 1]["file"], "subsample": desc["N"], "open": bool(TRAJ[tid - 1].get("open"))}})
+                          "boo3": case["boo3"], "sched": list(case["sched"]),
+                          "ident": {"trajectory": TRAJ[tid - 1]["file"], "subsample": desc["N"], "open": bool(TRAJ[tid - 1].get("open")),
+                                    "same_diag_other_cell": bool(case["same_diag"])}})
         step = 2 if tier == "quick" else 4
         for k in range(0, len(items), step):
             jobs.append({"cfg": cfg, "items": items[k:k + step], "label": "traj"})
@@ -1167,8 +1217,12 @@ def run(tier, replay=None):
                        "float comparison at 1e-9 (1e-6 where the code rounds: S(q), Voronoi files); Hessian spectra relative to the spectral radius",
                        "participation ratios are compared on non-degenerate modes only; w-hat where q_l > 1e-6",
                        "decisions within 1e-7 (relative) of a bin edge / cut-off / equal-distance tie / half cell are counted as ties",
-                       "axis permutations only where the permuted cell is lower-triangular again; rotations only for open boundaries; "
-                       "S(q) and Voronoi only in orthogonal cells (documented domain)"]
+                       "every axis permutation of every cell (a tilted cell becomes a permuted LAMMPS cell P H P^T; the routines take the "
+                       "h-matrix as given); rotations only for open boundaries; S(q) and Voronoi only in orthogonal cells (documented domain)",
+                       "base and transformed configuration are analysed in one process, into the same output file names, in the order of "
+                       "Symmetry!Schedule (axis words on periodic cells: base, transformed, base again)",
+                       "3-D bond order: degrees of Symmetry!BooDegrees (4, 6; for axis permutations / rotations of small inputs also 12 and a "
+                       "rotating further degree out of 1..13)"]
     if replay:
         case = common.load_replay(replay)
         print(json.dumps(case, indent=1)[:6000])
@@ -1180,11 +1234,19 @@ def run(tier, replay=None):
     salt = common.SEED
     g = run_tlc_sharded("MC_Symmetry", dict(constants=tlc_consts(tier, "small", True, maxlen, sample, salt), invariants=INVS + ["Emit"]))
     require_model_ok(g, "MC_Symmetry small")
-    chk.add_tlc(g, f"small: 10 base configurations x words up to length {maxlen} (longer words sampled 1/{sample})")
+    chk.add_tlc(g, f"small: 12 base configurations x words up to length {maxlen} (longer words sampled 1/{sample})")
     if not g.cases:
         raise common.MachineryError("no cases emitted")
     cases = select_small(g.cases, tier)
     jobs = small_jobs(cases, quick)
+    # non-vacuity of the widened axis generator: tilted cells whose axes are renumbered, among them cells whose image has
+    # the same edge lengths in the same order (equal edges exchanged), all evaluated in both orders
+    chk.extra["small_cases_tilted_cell_axes"] = sum(1 for c in cases if c["cellrel"]["tilted_axes"])
+    chk.extra["small_cases_same_diagonal_other_cell"] = sum(1 for c in cases if c["cellrel"]["same_diag"])
+    chk.extra["small_cases_both_orders"] = sum(1 for c in cases if len(c["sched"]) > 2)
+    chk.extra["small_cases_boo3_degrees"] = sorted({int(l) for c in cases if "boo3" in c["obs"] for l, _ in c["boo3"]})
+    if not any(c["cellrel"]["same_diag"] and len(c["sched"]) > 2 for c in cases) or 12 not in chk.extra["small_cases_boo3_degrees"]:
+        raise common.MachineryError("scope lost: no renumbered tilted cell with equal edges / no degree above 10 among the replayed cases")
     # ---- trajectories: descriptors -> TLC -> words
     loaded = {}
     for spec in TRAJ:
@@ -1206,6 +1268,8 @@ def run(tier, replay=None):
     finally:
         shutil.rmtree(tmp, ignore_errors=True)
     tjobs = traj_jobs(loaded, t.cases, tier, chk)
+    chk.extra["traj_items_same_diagonal_other_cell"] = sum(1 for j in tjobs for it in j["items"] if it["ident"]["same_diag_other_cell"])
+    chk.extra["traj_items_both_orders"] = sum(1 for j in tjobs for it in j["items"] if len(it["sched"]) > 2)
     results = common.pmap(replay_group, jobs + tjobs, chunksize=1)
     trace = []
     collect(chk, results, covered, trace)
